@@ -114,34 +114,19 @@ def distinctKeys (os : List Obs) : Nat := (os.map (fun o => (⟨o.conn, o.fromCl
 
 end Huginn.Uptime.Spec
 
-/-! ### known-finding classes -/
+/-! ### known-finding classes (multipleOfBase and backwardAccepted were repaired in /repo,
+fixes/C19-*.patch) -/
 namespace Huginn.KF.C19
 open Huginn.Uptime Huginn.Uptime.Spec
-
-/-- the rate snaps to a multiple ≥ 2 of 100 Hz (200, 300, … — and everything from 450 Hz up outside
-900…1100): the code reports the base, 100 Hz. -/
-def multipleOfBase (t0 v0 t1 v1 : Nat) : Prop :=
-  InBounds t0 v0 t1 v1 ∧ ¬ Snaps 1000 (advance v0 v1 * 1000) (t1 - t0) ∧
-  ∃ M, M ≤ advance v0 v1 * 1000 / (t1 - t0) + 100 ∧ Snap 100 (advance v0 v1 * 1000) (t1 - t0) M ∧ 200 ≤ M
-instance (a b c d) : Decidable (multipleOfBase a b c d) := by unfold multipleOfBase; exact inferInstance
 
 /-- inside the stated bounds but fewer than 5 ticks: nothing is reported (and the endpoint turns bad) -/
 def minTicks (t0 v0 t1 v1 : Nat) : Prop := InBounds t0 v0 t1 v1 ∧ advance v0 v1 < 5
 instance (a b c d) : Decidable (minTicks a b c d) := by unfold minTicks; exact inferInstance
 
-/-- the timestamp moved backward (advance ≥ 2^31, i.e. far outside 1500 Hz): the code estimates from
-the size of the backward step instead of withholding -/
-def backwardAccepted (t0 v0 t1 v1 : Nat) : Prop :=
-  ¬ InBounds t0 v0 t1 v1 ∧ advance v0 v1 > U32 - 1 - advance v0 v1
-instance (a b c d) : Decidable (backwardAccepted a b c d) := by unfold backwardAccepted; exact inferInstance
-
-def any (t0 v0 t1 v1 : Nat) : Prop :=
-  multipleOfBase t0 v0 t1 v1 ∨ minTicks t0 v0 t1 v1 ∨ backwardAccepted t0 v0 t1 v1
+def any (t0 v0 t1 v1 : Nat) : Prop := minTicks t0 v0 t1 v1
 instance (a b c d) : Decidable (any a b c d) := by unfold any; exact inferInstance
 
 def names (t0 v0 t1 v1 : Nat) : List String :=
-  (if multipleOfBase t0 v0 t1 v1 then ["KF.C19.multipleOfBase"] else []) ++
-  (if minTicks t0 v0 t1 v1 then ["KF.C19.minTicks"] else []) ++
-  (if backwardAccepted t0 v0 t1 v1 then ["KF.C19.backwardAccepted"] else [])
+  (if minTicks t0 v0 t1 v1 then ["KF.C19.minTicks"] else [])
 
 end Huginn.KF.C19
